@@ -72,7 +72,7 @@ def reference(case: dict[str, Any]) -> dict[str, Any]:
             break
         if ref_stop(case["stop"], k, e, w):
             break
-        t = tf + w
+        t = tf + max(w, case.get("busy_block", 0.0))
         if k > 40:
             raise RuntimeError("reference does not terminate")
     return {"executions": k, "failed": True, "elapsed": e, "starts": starts}
@@ -129,6 +129,12 @@ def cases(tier: str) -> list[dict[str, Any]]:
         cs.append({"stop": ("delay", 2.5), "wait": 1, "dur": 0.7, "queue_wait": qw, "clause": "delay_budget"})
         cs.append({"stop": ("attempt", 3), "wait": 1, "dur": 0.7, "queue_wait": qw, "clause": "attempt_budget"})
         cs.append({"stop": ("or", ("attempt", 4), ("delay", 2.5)), "wait": 1, "dur": 0.0, "queue_wait": qw, "clause": "composed_budget"})
+    # every retry comes due while the step's only worker is busy: it waits in the step queue and must keep its
+    # attempt count, first-attempt time and last exception
+    for bb in (1.5, 4.0):
+        cs.append({"stop": ("attempt", 4), "wait": 1, "dur": 0.7, "busy_block": bb, "clause": "attempt_budget"})
+        cs.append({"stop": ("delay", 10.0), "wait": 1, "dur": 0.7, "busy_block": bb, "clause": "delay_budget"})
+        cs.append({"stop": ("or", ("attempt", 3), ("delay", 10.0)), "wait": 0, "dur": 0.25, "busy_block": bb, "clause": "composed_budget"})
     out = []
     for c in cs:
         for clock in CLOCKS:
@@ -154,13 +160,15 @@ def check_case(case: dict[str, Any]) -> tuple[dict[str, Any], list[tuple[str, di
 
     obs = run_failing(build_policy(case), exc_for, dur=case["dur"], clock=tuple(case["clock"]),
                       wall_adapter=case["wall_adapter"], with_handler=case["handler"],
-                      queue_wait=case.get("queue_wait", 0.0))
+                      queue_wait=case.get("queue_wait", 0.0), busy_block=case.get("busy_block", 0.0))
     v: list[tuple[str, dict[str, Any], str]] = []
     clock_kind = ("wall_adapter" if case["wall_adapter"] else
                   "bases_equal" if case["clock"][0] == case["clock"][1] else "bases_differ")
     w = {"clock": clock_kind, "stop": case["stop"][0], "policy": case.get("policy", "composed")}
     if case.get("queue_wait"):
         w["queued_first"] = True
+    if case.get("busy_block"):
+        w["retry_queued_behind_busy_worker"] = True
     desc = f"case={ {k: case[k] for k in case if k not in ('clause',)} }"
     n_exec = len(obs.attempts)
     if obs.stuck or obs.capped:
